@@ -118,20 +118,32 @@ fn all_pks(ts: &[&T]) -> String {
 fn bytes_to_t(b: &[u8]) -> Option<T> { let mut a = Allocator::new(); let n = node_from_bytes(&mut a, b).ok()?; Some(node_to_t(&a, n)) }
 
 /// one C07 case: both block paths on the same arguments
+thread_local! { static STRAY_SIG: std::cell::Cell<bool> = std::cell::Cell::new(false); }
+/// a valid signature that is not the identity (verifies no empty pair list)
+fn stray_signature() -> Signature { let sk = chia_bls::SecretKey::from_seed(&[7u8; 32]); chia_bls::sign(&sk, b"stray") }
+
+/// `c07_case` with a non-identity signature offered to both paths (signature validation on); only meaningful
+/// for generators that collect no (pk, msg) pairs
+pub fn c07_case_stray(o: &mut Out, program: &[u8], refs: &[Vec<u8>], flags: u32, max_cost: u64) {
+    STRAY_SIG.with(|c| c.set(true)); c07_case(o, program, refs, flags & !F_DONT_VALIDATE, max_cost); STRAY_SIG.with(|c| c.set(false));
+}
+
 pub fn c07_case(o: &mut Out, program: &[u8], refs: &[Vec<u8>], flags: u32, max_cost: u64) {
     let Some(orc) = oracle(program, refs, flags) else { return };
     let prog_t = bytes_to_t(&orc.prog_plain);
     let mut ts: Vec<T> = vec![]; if let Some(t) = prog_t { ts.push(t); }
     for p in &orc.puz { if let Some((_, h)) = p.split_once(':') { if let Some(t) = bytes_to_t(&hex::decode(h).unwrap()) { ts.push(t); } } }
     let pks = all_pks(&ts.iter().collect::<Vec<_>>());
-    let sig = Signature::default();
+    let stray = STRAY_SIG.with(|c| c.get());
+    let sig = if stray { stray_signature() } else { Signature::default() };
+    let sig_l = sig.clone();
     let f = ConsensusFlags::from_bits_retain(flags);
     let line = format!("C07 {} {} {} {} {} {} {} {} {} {} {}", flags, max_cost, program.len(), program.starts_with(&[0xff, 0x01]) as u8,
         if refs.is_empty() { "-".to_string() } else { refs.iter().map(|r| hx(r)).collect::<Vec<_>>().join(",") },
         hex::encode(&orc.prog_plain), run_s(&orc.gen), run_s(&orc.gen_rom), run_s(&orc.rom), if orc.puz.is_empty() { "-".to_string() } else { orc.puz.join(";") }, pks);
     type RunOut = Result<OwnedSpendBundleConditions, chia_consensus::validation_error::ErrorCode>;
     let p1 = program.to_vec(); let r1 = refs.to_vec();
-    let legacy: Option<RunOut> = std::panic::catch_unwind(move || run_block_generator(&p1, r1.iter(), max_cost, f, &Signature::default(), None, &TEST_CONSTANTS)
+    let legacy: Option<RunOut> = std::panic::catch_unwind(move || run_block_generator(&p1, r1.iter(), max_cost, f, &sig_l, None, &TEST_CONSTANTS)
         .map(|(a, c)| OwnedSpendBundleConditions::from(&a, c)).map_err(|e| e.error_code())).ok();
     let p2 = program.to_vec(); let r2 = refs.to_vec();
     let native: Option<RunOut> = std::panic::catch_unwind(move || run_block_generator2(&p2, r2.iter(), max_cost, f, &sig, None, &TEST_CONSTANTS)
@@ -157,6 +169,7 @@ pub fn c07_case(o: &mut Out, program: &[u8], refs: &[Vec<u8>], flags: u32, max_c
     let mut line = line;
     if flags & F_INTERNED != 0 { line.push_str(" @interned"); }
     if flags & F_SIMPLE != 0 && !refs.is_empty() { line.push_str(" @simple-refs"); }
+    if stray { line.push_str(" @stray-sig"); }
     o.case(&line, &format!("L={} || N={} || rom=ok prop={}", show(&legacy), show(&native), prop));
 }
 
@@ -239,6 +252,14 @@ pub fn run_c07(o: &mut Out, seed: u64, thorough: bool, replay: Option<Vec<String
         if r.chance(1, 6) { flags |= F_NO_UNKNOWN | F_STRICT; }
         let refs: Vec<Vec<u8>> = if r.chance(1, 8) { (0..r.range(1, 2)).map(|_| vec![0x80u8]).collect() } else { vec![] };
         c07_case(o, &bytes, &refs, flags, 11_000_000_000);
+        // signature validation on, identity or stray signature, for generators that collect no pairs
+        let no_aggsig = sp.iter().all(|s| { let mut it = &s.solution; let mut ok = true;
+            while let T::P(c, nxt) = it { if let T::P(op, _) = &**c { if let T::A(b) = &**op { if b.len() == 1 && (43..=50).contains(&b[0]) { ok = false; } } } it = &**nxt; } ok })
+            && sp.iter().all(|s| matches!(&s.puzzle, T::A(b) if b == &vec![1u8]));
+        if no_aggsig && r.chance(1, 3) {
+            c07_case(o, &bytes, &refs, flags & !F_DONT_VALIDATE, 11_000_000_000);
+            c07_case_stray(o, &bytes, &refs, flags, 11_000_000_000);
+        }
         // limits around the totals of both paths
         let f = ConsensusFlags::from_bits_retain(flags);
         if r.chance(1, 3) {
@@ -260,7 +281,9 @@ fn replay_c07(o: &mut Out, l: &str) {
     let flags: u32 = t[1].parse().unwrap(); let max_cost: u64 = t[2].parse().unwrap();
     let refs: Vec<Vec<u8>> = if t[5] == "-" { vec![] } else { t[5].split(',').map(crate::out::unhx).collect() };
     let bytes = hex::decode(t[6]).unwrap();
+    if l.contains("@stray-sig") { STRAY_SIG.with(|c| c.set(true)); }
     c07_case(o, &bytes, &refs, flags, max_cost);
+    STRAY_SIG.with(|c| c.set(false));
 }
 
 // ---------------------------------------------------------------------------------------------
@@ -570,6 +593,16 @@ pub fn run_c09(o: &mut Out, seed: u64, thorough: bool, replay: Option<Vec<String
         let conds = list(vec![pair(at(&[51]), list(args, nil()))], nil());
         let sp = GSpend { parent: p.ids[0], puzzle: at(&[1]), amount_atom: int(amount), solution: conds, extra: nil() };
         let g = quoted_generator(&[sp], nil(), nil());
+        for flags in [F_DONT_VALIDATE, F_DONT_VALIDATE | F_COST] { c09_case(o, &to_bytes(&g), flags); }
+    }}
+    // sibling coins: same parent and amount, different puzzles (the lookup must not stop at the first near match)
+    for amount in [1u64, 1000] { for rev in [false, true] {
+        let c1 = list(vec![pair(at(&[51]), list(vec![at(&p.ids[2]), int(1)], nil()))], nil());
+        let a = GSpend { parent: p.ids[0], puzzle: at(&[1]), amount_atom: int(amount), solution: c1.clone(), extra: nil() };
+        let b = GSpend { parent: p.ids[0], puzzle: pair(at(&[1]), nil()), amount_atom: int(amount), solution: nil(), extra: nil() };
+        let c = GSpend { parent: p.ids[0], puzzle: list(vec![at(&[2]), at(&[1]), nil()], nil()), amount_atom: int(amount), solution: nil(), extra: nil() }; // (a 1 ()): runs the solution-less env
+        let mut v = vec![a, b, c]; if rev { v.reverse(); }
+        let g = quoted_generator(&v, nil(), nil());
         for flags in [F_DONT_VALIDATE, F_DONT_VALIDATE | F_COST] { c09_case(o, &to_bytes(&g), flags); }
     }}
     // SpendBundle::additions on accepted bundles
